@@ -156,6 +156,12 @@ impl Run {
     }
 
     pub fn violation(&self, sig: &str, oracle: &str, family: &str, index: u64, detail: J) {
+        // signatures are single tokens (they are matched against known_findings.txt)
+        let sig: String = sig
+            .chars()
+            .map(|c| if c.is_whitespace() { '_' } else { c })
+            .collect();
+        let sig = sig.as_str();
         let mut v = self.violations.lock().unwrap();
         match v.get_mut(sig) {
             Some(e) => e.count += 1,
